@@ -457,6 +457,10 @@ inline void apply_crate_op(World& w, S& s, Ctx& ctx, int mask)
                 adopt_new_crate(w, ctx, cr, name, 0, (after && w.v2) ? after->id : 0, w.hist);
                 w.hist += "=" + std::to_string(cr.id());
             }
+            catch (const vf::Fail&)
+            {
+                throw;
+            }
             catch (const std::exception& ex)
             {
                 VF_CHECK(dup, w.hist << ": creating a root crate with a fresh valid name threw: " << ex.what());
@@ -497,6 +501,10 @@ inline void apply_crate_op(World& w, S& s, Ctx& ctx, int mask)
                 adopt_new_crate(w, ctx, cr, name, pid, (after && w.v2) ? after->id : 0, w.hist);
                 w.hist += "=" + std::to_string(cr.id());
             }
+            catch (const vf::Fail&)
+            {
+                throw;
+            }
             catch (const std::exception& ex)
             {
                 VF_CHECK(dup, w.hist << ": creating a sub-crate with a fresh valid name threw: " << ex.what());
@@ -527,6 +535,10 @@ inline void apply_crate_op(World& w, S& s, Ctx& ctx, int mask)
                     w.structural_on_nonleaf = true;
                 if (nonleaf && w.depth_of(c->id) + 1 < w.max_depth + 1 && w.subtree(c->id).size() >= 2)
                     ctx.label("rename-above-grandchildren");
+            }
+            catch (const vf::Fail&)
+            {
+                throw;
             }
             catch (const std::exception& ex)
             {
@@ -597,6 +609,10 @@ inline void apply_crate_op(World& w, S& s, Ctx& ctx, int mask)
                 }
                 w.max_depth = std::max(w.max_depth, w.depth_of(c->id) + (st.empty() ? 0 : 1));
             }
+            catch (const vf::Fail&)
+            {
+                throw;
+            }
             catch (const std::exception& ex)
             {
                 VF_CHECK(dup, w.hist << ": a legal re-parenting threw: " << ex.what());
@@ -624,6 +640,10 @@ inline void apply_crate_op(World& w, S& s, Ctx& ctx, int mask)
             try
             {
                 w.db.remove_crate(h);
+            }
+            catch (const vf::Fail&)
+            {
+                throw;
             }
             catch (const std::exception& ex)
             {
@@ -732,6 +752,10 @@ inline void apply_crate_op(World& w, S& s, Ctx& ctx, int mask)
                 else
                     c->handle.add_track(t->handle);
             }
+            catch (const vf::Fail&)
+            {
+                throw;
+            }
             catch (const std::exception& ex)
             {
                 VF_CHECK(false, w.hist << ": add_track threw: " << ex.what());
@@ -769,6 +793,10 @@ inline void apply_crate_op(World& w, S& s, Ctx& ctx, int mask)
             try
             {
                 c->handle.remove_track(t->handle);
+            }
+            catch (const vf::Fail&)
+            {
+                throw;
             }
             catch (const std::exception& ex)
             {
